@@ -77,6 +77,9 @@ def units(tier, seed):
       us.append(dict(part='opt', wrapper='TrainState', tree=tree, wrt='-', tx=tx))
     for tree, wrt in b['nnx_tree_wrt']:  # 'nnx' = nnx.Optimizer and nnx.TrainState
       us.append(dict(part='opt', wrapper='nnx', tree=tree, wrt=wrt, tx=tx))
+  # mixed precision: low-precision parameters with float32 optimizer state / updates
+  for txn in MIXED_TX:
+    us.append(dict(part='mixed', tx=txn))
   n = b['metric_stream_len']
   for variant in b['metric_variants']:
     for v0 in range(3):
@@ -87,6 +90,8 @@ def units(tier, seed):
   def cost(u):
     if u['part'] == 'opt':
       return (40 if u['wrapper'] == 'nnx' else 15) if u['tx'].startswith('multisteps') else 2
+    if u['part'] == 'mixed':
+      return 5
     return {1: 20, 2: 8}.get(u['l1'], 2) * (2 if u['variant'] == 'multi' else 1)
   us = sorted(us, key=lambda u: -cost(u))
   # interleave the optimizer and the metric units (both stay longest-first) so
@@ -96,7 +101,7 @@ def units(tier, seed):
   out = []
   for i in range(max(len(a), len(b))):
     out += a[i:i + 1] + b[i:i + 1]
-  return out
+  return out + [u for u in us if u['part'] == 'mixed']
 
 
 def setup_worker():
@@ -129,6 +134,9 @@ def run_unit(unit):
     import jax
     jax.clear_caches()
     _KW.clear()
+  if unit['part'] == 'mixed':
+    _mixed(res, unit)
+    return res
   if unit['part'] == 'opt':
     for mode in ('eager', 'jit'):
       if unit['wrapper'] == 'TrainState':
@@ -821,3 +829,100 @@ def _same_across(V, variant, prev, c, h2):
       V('split-dependent', f'the same values since reset give {a} when fed as '
         f'{[o if o == "R" else list(o) for o in h1]} and {b} when fed as the ops of this case',
         h2, observed=repr(b), expected=repr(a))
+
+
+# ---------------------------------------------------------------------------
+# mixed precision: dtype of parameters / updates differ
+
+
+MIXED_TX = ['momentum-f32acc', 'adam-f32mu', 'sgd', 'trace-f32']
+
+
+def _mixed_tx(name):
+  import optax
+  import jax.numpy as jnp
+  if name == 'momentum-f32acc':
+    return optax.sgd(0.5, momentum=0.5, accumulator_dtype=jnp.float32)
+  if name == 'adam-f32mu':
+    return optax.adam(0.125, mu_dtype=jnp.float32)
+  if name == 'trace-f32':
+    return optax.chain(optax.trace(decay=0.5, accumulator_dtype=jnp.float32), optax.scale(-0.5))
+  return optax.sgd(0.5)
+
+
+def _mixed(res, unit):
+  """bf16 / f16 parameters: every wrapper must produce the dtypes and bits of the hand loop."""
+  import itertools
+  import jax
+  import jax.numpy as jnp
+  import numpy as np
+  import optax
+  from flax import nnx
+  from flax.training import train_state
+
+  def sig(t):
+    return [(jax.tree_util.keystr(p), str(np.asarray(a).dtype), np.asarray(a).shape,
+             np.asarray(a).tobytes()) for p, a in jax.tree_util.tree_leaves_with_path(t)]
+
+  for pdt in (jnp.bfloat16, jnp.float16):
+    p0 = {'w': jnp.asarray([[1.0, -2.0], [0.5, 3.0]], pdt), 'b': jnp.asarray([0.25, -1.0], pdt)}
+    pool = [jax.tree.map(lambda a, k=k: (jnp.ones_like(a) * (k + 1) * 0.5).astype(pdt), p0)
+            for k in range(2)]
+    for hist in itertools.chain(itertools.product(range(2), repeat=2),
+                                itertools.product(range(2), repeat=3)):
+      key = f"mixed|{unit['tx']}|{jnp.dtype(pdt).name}|hist={list(hist)}"
+      case = dict(tx=unit['tx'], dtype=jnp.dtype(pdt).name, history=list(hist))
+      tx = _mixed_tx(unit['tx'])
+      # oracle
+      p, s_ = p0, tx.init(p0)
+      for gi in hist:
+        u, s_ = tx.update(pool[gi], s_, p)
+        p = optax.apply_updates(p, u)
+      # nnx.Optimizer
+      class M(nnx.Module):
+        def __init__(self):
+          self.w = nnx.Param(p0['w'])
+          self.b = nnx.Param(p0['b'])
+          self.stat = nnx.BatchStat(jnp.asarray([7.0], pdt))
+      res['evals'] += 2
+      res['transitions'] += len(hist)
+      try:
+        m = M()
+        opt = nnx.Optimizer(m, tx)
+        for gi in hist:
+          opt.update(nnx.State({'w': nnx.VariableState(nnx.Param, pool[gi]['w']),
+                                'b': nnx.VariableState(nnx.Param, pool[gi]['b'])}))
+        got = {'w': m.w.value, 'b': m.b.value}
+        if sig(got) != sig(p):
+          core.violation(res, f'mixed-params|nnx.Optimizer|{key}',
+                         'parameters after the updates differ from the hand-written optax loop '
+                         '(dtype or bits)', case,
+                         observed=[(a, b) for a, b, _, _ in sig(got)],
+                         expected=[(a, b) for a, b, _, _ in sig(p)])
+        if str(np.asarray(m.stat.value).dtype) != jnp.dtype(pdt).name or \
+           float(m.stat.value[0]) != 7.0:
+          core.violation(res, f'mixed-outside-wrt|nnx.Optimizer|{key}',
+                         'a Variable outside wrt changed', case)
+        if int(opt.step.value) != len(hist):
+          core.violation(res, f'mixed-step|nnx.Optimizer|{key}', 'step counter', case)
+      except Exception as e:  # noqa
+        core.violation(res, f'mixed-raises|nnx.Optimizer|{key}',
+                       f'{type(e).__name__}: {str(e)[:200]}', case)
+      # flax.training TrainState
+      try:
+        ts = train_state.TrainState.create(apply_fn=None, params=p0, tx=tx)
+        for gi in hist:
+          ts = ts.apply_gradients(grads=pool[gi])
+        if sig(ts.params) != sig(p):
+          core.violation(res, f'mixed-params|TrainState|{key}',
+                         'parameters differ from the hand-written optax loop (dtype or bits)',
+                         case)
+        if sig(ts.opt_state) != sig(s_):
+          core.violation(res, f'mixed-opt_state|TrainState|{key}', 'optimizer state differs', case)
+      except Exception as e:  # noqa
+        core.violation(res, f'mixed-raises|TrainState|{key}',
+                       f'{type(e).__name__}: {str(e)[:200]}', case)
+      core.outcome(res, 'mixed:ok')
+      res['nontrivial'].append(core.h(key))
+  res['states'] += 1
+  res['samples'].append(dict(part='mixed', tx=unit['tx'], dtypes=['bfloat16', 'float16']))
